@@ -105,6 +105,10 @@ class Enc:
             return self.eq(b, a)
         if a is None or b is None:
             return a is None and b is None
+        if isinstance(a, (list, tuple)) or isinstance(b, (list, tuple)):
+            if not (isinstance(a, (list, tuple)) and isinstance(b, (list, tuple))) or len(a) != len(b):
+                return False
+            return self._and(*[self.eq(x, y) for x, y in zip(a, b)])
         if isinstance(a, z3.ExprRef) or isinstance(b, z3.ExprRef):
             if not (isinstance(a, z3.ExprRef) and isinstance(b, z3.ExprRef)):
                 raise Unsupported("comparison of symbolic with concrete")
@@ -224,9 +228,29 @@ class Enc:
                     return True  # a member of the enum's own sort
                 raise Unsupported("in")
             raise Unsupported("compare op")
+        if isinstance(n, ast.Call) and isinstance(n.func, ast.Attribute):
+            recv = self.ev(n.func.value, env, globs)
+            if isinstance(recv, Rec):
+                # a method of the same value classes, called on a symbolic record: evaluate its AST (single return)
+                m = self.method_ast(recv.cls, n.func.attr)
+                if m is None:
+                    raise Unsupported(f"method {n.func.attr} of {recv.cls.__name__}")
+                fd = m[0]
+                params = [a.arg for a in fd.args.args]
+                args = [self.ev(a, env, globs) for a in n.args]
+                if len(params) != 1 + len(args) or n.keywords:
+                    raise Unsupported("method call with keyword / default arguments")
+                return self.run(m, dict(zip(params, [recv] + args)))
         if isinstance(n, ast.Call):
             f = self.ev(n.func, env, globs)
             args = [self.ev(a, env, globs) for a in n.args]
+            if f is isinstance and len(args) == 2 and isinstance(args[1], type):
+                a0 = args[0]
+                if isinstance(a0, Rec):
+                    return issubclass(a0.cls, args[1])
+                if a0 is None:
+                    return False
+                raise Unsupported("isinstance of a symbolic leaf")
             if f is type and len(args) == 1:
                 return args[0].cls if isinstance(args[0], Rec) else type(args[0])
             if f is hash and len(args) == 1:
